@@ -272,6 +272,36 @@ Section Leaves.
         rewrite (b64_roundtrip false b (forallb_bytes b H)). reflexivity.
   Qed.
 
+  (** no conventional form of a non-empty value is the empty text or the empty byte string
+      (each text form parses back, and the empty text parses to nothing) *)
+  Lemma sleaf_nonempty st k l :
+    leaf_ok c k l = true -> leaf_empty l = false ->
+    (match sleaf c st k l with JStr [] | JBytes [] => true | _ => false end) = false.
+  Proof.
+    assert (Hst : forall t, t <> [] -> utf8_dec (utf8_bytes t) = Some t ->
+                  (match stext c st t with JStr [] | JBytes [] => true | _ => false end) = false).
+    { intros t Hne Hd. unfold stext. destruct (msgpack c && st_text_bin st).
+      - destruct (utf8_bytes t) eqn:E; [|reflexivity]. cbn in Hd. congruence.
+      - destruct t; [congruence|reflexivity]. }
+    unfold leaf_ok, sleaf, leaf_empty.
+    destruct k as [msl| | | |msl| ], l as [z|t|b|bits|d|b]; try discriminate; intros H He.
+    - destruct (msgpack c && negb (in64 z)); [|reflexivity].
+      apply Hst; [|apply ascii_bytes_dec, all_ascii_str_int].
+      intros E. pose proof (int_of_text_str_int z) as R. rewrite E in R. discriminate R.
+    - apply Hst; [destruct t; [discriminate|discriminate]|apply utf8_bytes_dec, H].
+    - reflexivity.
+    - destruct (msgpack c && st_dbl_int st); [|reflexivity].
+      destruct (in_true_false (JFlt bits)); reflexivity.
+    - apply andb_true_iff in H as [Hc _].
+      apply Hst; [|apply ascii_bytes_dec, all_ascii_dec_str; lia].
+      intros E. pose proof (dec_roundtrip d ltac:(lia)) as R. rewrite E in R. discriminate R.
+    - destruct (msgpack c).
+      + destruct b; [discriminate|reflexivity].
+      + destruct (b64encode false b) eqn:E; [|reflexivity].
+        pose proof (b64_roundtrip false b (forallb_bytes b H)) as R. rewrite E in R.
+        destruct b; [discriminate|]. discriminate R.
+  Qed.
+
   Theorem leaf_dec_null nillable k :
     nillable = true \/ c_soft c = false -> leaf_dec c nillable k JNull = Ok DNone.
   Proof.
@@ -310,7 +340,7 @@ Section Leaves.
         rewrite (dec_roundtrip d ltac:(lia)). reflexivity.
       + cbn. rewrite (dec_roundtrip d ltac:(lia)). reflexivity.
     - destruct (msgpack c) eqn:Hm; cbv beta iota; [reflexivity|].
-      rewrite (b64_roundtrip false b (forallb_bytes b H)). reflexivity.
+      rewrite (b64_roundtrip false b (forallb_bytes b H)), text_eqb_refl. reflexivity.
   Qed.
 
   Theorem sleaf_dec_null nillable k : sleaf_dec c nillable k JNull = Ok DNone.
